@@ -11,7 +11,7 @@ fn main() {
     let mut sum = Summary::default();
     sum.nontrivial_rule = "a case is (database, query); distinct = distinct (db text, SQL text); non-trivial = the executor returned rows or an error for a query over at least one non-empty table (every case also lists its syntactic features in the distribution)".into();
     let mut log = CaseLog::new(&args);
-    let ndb = if args.thorough { 2400 } else { 320 };
+    let ndb = if args.thorough { 1000 } else { 320 };
     let per_db = 12;
     let nshards = 16;
     let mut shards: Vec<String> = (0..nshards).map(|_| String::from(SHARD_HEADER)).collect();
